@@ -453,7 +453,25 @@ def explore_wide(args):
             out.append((arr, (max(0, n - 1), 0)))
         return out
 
+    def repeating_arrays(step):
+        # rows from a 4-row alphabet that does NOT change from render to render (a row cached from an earlier render can be equal to a
+        # row of a later one), heights up to 2h+3 (one render scrolls more than a screenful)
+        alpha = ((), (("a", ()),), (("b", (("fg", 31),)),), (("a", ()), ("b", ())))
+        out = []
+        for n in range(0, 2 * h + 4):
+            for kk in (1, 2, 3):
+                for off in range(4):
+                    arr = tuple(alpha[(i * kk + off) % 4] for i in range(n))
+                    out.append((arr, (max(0, n - 1), 0)))
+                    if n == 0:
+                        break
+                if n == 0:
+                    break
+        return out
+
     def arrays(step):
+        if family == "repeating_rows":
+            return repeating_arrays(step)
         if family == "long_lines":
             return long_arrays(step)
         if family == "tall_arrays":
@@ -525,6 +543,9 @@ def run(ctx):
     longl = [(ctx.tier, ctx.seed, 3, w, k0, 3 if ctx.thorough else 2, "long_lines") for w in (48, 60) for k0 in (0, 2, 4)]
     for d in ctx.pmap(explore_wide, longl):
         rep.merge(d, "long_lines_sharing_prefixes")
+    rept = [(ctx.tier, ctx.seed, h, 2, k0, 2, "repeating_rows") for h in (2, 3) for k0 in range(0, h + 1)]
+    for d in ctx.pmap(explore_wide, rept):
+        rep.merge(d, "rows_that_repeat_from_render_to_render")
     tall = [(ctx.tier, ctx.seed, h, 8, k0, 2, "tall_arrays") for h in (3, 5) for k0 in range(0, h + 2)]
     for d in ctx.pmap(explore_wide, tall):
         rep.merge(d, "arrays_hundreds_of_rows_taller_than_the_window")
